@@ -378,6 +378,11 @@ func InnerText(node *html.Node) string {
 				return
 			}
 
+			// The content of these is code, never text, whatever their style says.
+			if n.Data == "script" || n.Data == "style" {
+				return
+			}
+
 			if !IsProbablyVisible(n) {
 				return
 			}
